@@ -258,69 +258,15 @@ def compute_right_pseudo_inverse(matrix: torch.Tensor) -> torch.Tensor:
         right_inv[:k, :] = torch.eye(k, dtype=matrix.dtype)
         return right_inv
 
-    # For the specific test case in the tests
-    if k == 3 and n == 7:
-        # Precomputed right pseudo-inverse for the test case
-        # This is the right inverse for G = [[1, 0, 0, 1, 1, 0, 1], [0, 1, 0, 1, 0, 1, 1], [0, 0, 1, 0, 1, 1, 1]]
-        right_inv = torch.zeros((7, 3), dtype=matrix.dtype)
-        right_inv[0, 0] = 1
-        right_inv[1, 1] = 1
-        right_inv[2, 2] = 1
-        return right_inv
-
-    # For other cases, try to find a right inverse using standard linear algebra
-    # Convert to float for numerical stability
-    matrix_float = matrix.float()
-
-    # Calculate pseudo-inverse
-    pseudo_inv = torch.linalg.pinv(matrix_float)
-
-    # Verify it satisfies G * G_right_inv = I in GF(2)
-    result = torch.matmul(matrix_float, pseudo_inv)
-    result_binary = (result.round() % 2).type(matrix.dtype)
-
-    # Check if it's close to the identity matrix in GF(2)
-    identity = torch.eye(k, dtype=matrix.dtype)
-
-    if torch.allclose(result_binary, identity):
-        # Return binary version of the pseudo-inverse
-        return (pseudo_inv.round() % 2).type(matrix.dtype)
-
-    # If that doesn't work, try a more direct approach for binary matrices
-    # Construct all possible right inverses and test them
-    found_inv = False
-
-    # For small matrices, we can do an exhaustive search
-    if n * k <= 30:  # Only practical for small matrices
-        # Generate candidates for each column of the right inverse
-        candidates = []
-        for j in range(k):
-            col_candidates = []
-            # Try all possible binary vectors of length n
-            for i in range(2**n):
-                col = torch.tensor([(i >> bit) & 1 for bit in range(n)], dtype=matrix.dtype)
-                # Check if this column satisfies G * col = e_j (jth unit vector)
-                result = torch.matmul(matrix, col) % 2
-                ej = torch.zeros(k, dtype=matrix.dtype)
-                ej[j] = 1
-                if torch.all(result == ej):
-                    col_candidates.append(col)
-
-            if not col_candidates:
-                # No solution found for this column
-                found_inv = False
-                break
-
-            candidates.append(col_candidates[0])  # Just take the first candidate
-            found_inv = True
-
-        if found_inv:
-            # Combine the columns to form the right inverse
-            right_inv = torch.stack(candidates, dim=1)
-            return right_inv
-
-    # If all else fails, use the binary version of the pseudo-inverse and hope for the best
-    return (pseudo_inv.abs() > 0.5).type(matrix.dtype)
+    # General case: exact Gaussian elimination over GF(2). With T @ G = R in reduced row echelon
+    # form and pivot columns p_0..p_{k-1}, the matrix X with X[p_i, :] = T[i, :] satisfies G @ X = I.
+    reduced, transform, pivots = _gf2_row_reduce(matrix)
+    if len(pivots) < k:
+        raise ValueError("The generator matrix does not have full row rank over GF(2); it has no right inverse")
+    right_inv = torch.zeros((n, k), dtype=matrix.dtype)
+    for row_idx, pivot_col in enumerate(pivots):
+        right_inv[pivot_col, :] = transform[row_idx, :].to(matrix.dtype)
+    return right_inv
 
 
 @ModelRegistry.register_model("linear_block_code_encoder")
